@@ -80,6 +80,7 @@ RULES = {
     "C03": "same CASE export grouped by graph: keys() present-only; evaluate()/keys() on the dictionary restricted to keys() (the "
            "specification's Restrict) unchanged; for ALL pairs of dictionaries of a graph the fingerprints are equal iff reported "
            "keys and their values are equal (this enumerates every change/delete/add perturbation inside the universe); "
+           "fingerprints of a sample with >= 2 keys recomputed by child interpreters started with PYTHONHASHSEED 1 / 4242 / random must be byte-identical; "
            "non-trivial = keys() non-empty",
 }
 
